@@ -191,7 +191,132 @@ def h_update(s0: int, s1: int, s2: int, extra: int):
     assert dst == ({"a": 1, "b": {"c": 1}, "d": [1], "only": 7} if extra else {"a": 1, "b": {"c": 1}, "d": [1]})
 
 
+# ------------------------------------------------------------------------------------------------ E4: real file system
+import json as _json
+from vflib import synclib as SL
+from vflib.hutil import discard
+
+
+def _file_iff_case(entry, f, g, mrel, strat, recursive):
+    """conflicting files (top level f, nested sub/g): overwritten iff the strategy says so; None -> FileSyncConflict and untouched"""
+    with SL.Scratch() as sc:
+        src, dst = SL.build(sc.root, 15, f, g, mrel, 0, 0)
+        bd = SL.snap(dst.path)
+        bs = SL.snap(src.path)
+        calls = []
+        st = SL.strategy(strat, calls)
+        if entry == 0:
+            call = lambda: dst.sync(src, strategy=st, recursive=recursive, check_schema=False)
+        else:
+            sj, dj = src.open_job(SL.SPS[0]), dst.open_job(SL.SPS[0])
+            call = lambda: dj.sync(sj, strategy=st, recursive=recursive)
+        out = SL.outcome(call)
+        ad = SL.snap(dst.path)
+        problems = []
+        jid = src.open_job(SL.SPS[0]).id
+        conflicts = [rel for rel, stt in (("f", f), ("sub/g", g)) if stt in (4, 5) and (rel == "f" or recursive)]
+        if isinstance(out, tuple):
+            problems.append(("unexpected exception", out))
+        for rel, stt in (("f", f), ("sub/g", g)):
+            key = "workspace/%s/%s" % (jid, rel)
+            if stt not in (4, 5):
+                continue
+            if rel == "sub/g" and not recursive:
+                if ad.get(key) != bd.get(key):
+                    problems.append(("nested conflicting file changed although recursive=False", rel))
+                continue
+            if strat == 0:
+                if out != "file":
+                    problems.append(("no strategy, differing file, but no FileSyncConflict", rel, out))
+                if ad.get(key) != bd.get(key):
+                    problems.append(("file touched although FileSyncConflict was raised", rel))
+            elif out == "ok":
+                want_over = SL.strategy_says(strat, mrel)
+                over = ad.get(key) == bs.get(key)
+                if over != want_over:
+                    problems.append(("overwritten", over, "strategy says", want_over, rel, strat, mrel))
+        if strat >= 4 and out == "ok":
+            if sorted(calls) != sorted(conflicts):
+                problems.append(("custom strategy consulted for", calls, "differing files are", conflicts))
+        if SL.snap(src.path) != bs:
+            problems.append(("source changed",))
+        if any(k.endswith("~") for k in ad):
+            problems.append(("backup left",))
+        return out, problems
+
+
+def h_file_iff(entry: int, f: int, g: int, mrel: int, strat: int, recursive: bool):
+    assert 0 <= entry <= 1 and 3 <= f <= 5 and 0 <= g <= 5 and 0 <= mrel <= 2 and 0 <= strat <= 5 and part_ok(strat)
+    assert f in (4, 5) or g in (4, 5)
+    assert not (mrel == 1 and (f == 5 or g == 5))   # same size AND same mtime: the shallow comparison cannot see the difference (deep=True: C15)
+    fresh_path()
+    entry, f, g, mrel, strat, recursive = ci(entry, 0, 1), ci(f, 3, 5), ci(g, 0, 5), ci(mrel, 0, 2), ci(strat, 0, 5), cb(recursive)
+    with nt():
+        out, problems = _file_iff_case(entry, f, g, mrel, strat, recursive)
+    reached()
+    assert not problems
+
+
+def _doc_rollback_case(entry, dstate, pstate, didx):
+    """document conflicts: overwritten only if the key strategy selects them; DocumentSyncConflict leaves the destination document exactly as before"""
+    with SL.Scratch() as sc:
+        src, dst = SL.build(sc.root, 15, 0, 0, 0, dstate, pstate)
+        bd, bs = SL.snap(dst.path), SL.snap(src.path)
+        if entry == 0:
+            call = lambda: dst.sync(src, doc_sync=SL.doc_sync(didx), check_schema=False, strategy=SL.strategy(2))
+        else:
+            sj, dj = src.open_job(SL.SPS[0]), dst.open_job(SL.SPS[0])
+            call = lambda: dj.sync(sj, doc_sync=SL.doc_sync(didx), strategy=SL.strategy(2))
+        out = SL.outcome(call)
+        ad = SL.snap(dst.path)
+        problems = []
+        if isinstance(out, tuple):
+            problems.append(("unexpected exception", out))
+        jid = src.open_job(SL.SPS[0]).id
+        docs_ = [("workspace/%s/signac_job_document.json" % jid, dstate)] + ([("signac_project_document.json", pstate)] if entry == 0 else [])
+        conflicting = [(k, stt) for k, stt in docs_ if stt in (5, 6)]
+        expect = SL.doc_overwrites(didx)
+        if conflicting and expect is None and didx == 0:
+            if out != "doc":
+                problems.append(("document conflict without key strategy did not raise DocumentSyncConflict", out))
+        for k, stt in docs_:
+            before = _json.loads(bd[k]) if bd.get(k) else {}
+            after = _json.loads(ad[k]) if ad.get(k) else {}
+            if out == "doc":
+                # the document being synchronised when the conflict was raised is rolled back exactly; documents synchronised earlier in the
+                # same call (the project document precedes the job documents) may legitimately have been merged already
+                first_conflict = [kk for kk, s_ in ([("signac_project_document.json", pstate)] if entry == 0 else []) + [("workspace/%s/signac_job_document.json" % jid, dstate)] if s_ in (5, 6)][0]
+                if k == first_conflict and after != before:
+                    problems.append(("DocumentSyncConflict raised but the destination document changed", k, before, after))
+            elif out == "ok" and stt in (5, 6) and didx != 5:
+                for ck in SL.CONFLICT_KEYS[stt]:
+                    bval, aval = SL.flat(before).get(ck), SL.flat(after).get(ck)
+                    sval = SL.flat(_json.loads(bs[k])).get(ck)
+                    if expect is True and aval != sval:
+                        problems.append(("conflicting key not overwritten although selected", k, ck))
+                    if expect is False and aval != bval:
+                        problems.append(("conflicting key overwritten although not selected", k, ck))
+        if any(k.endswith("~") for k in ad):
+            problems.append(("backup file left", [k for k in ad if k.endswith("~")]))
+        if SL.snap(src.path) != bs:
+            problems.append(("source changed",))
+        return out, problems
+
+
+def h_doc_rollback(entry: int, dstate: int, pstate: int, didx: int):
+    assert 0 <= entry <= 1 and 0 <= dstate <= 6 and 0 <= pstate <= 2 and 0 <= didx <= 6 and didx != 5
+    assert dstate in (5, 6) or pstate == 2
+    fresh_path()
+    entry, dstate, pstate, didx = ci(entry, 0, 1), ci(dstate, 0, 6), pick([0, 4, 5], pstate), ci(didx, 0, 6)
+    with nt():
+        out, problems = _doc_rollback_case(entry, dstate, pstate, didx)
+    reached()
+    assert not problems
+
+
 HARNESSES = [
+    dict(name="h_file_iff", timeout=(600, 1500), parts=(6, 6), unblock=True),
+    dict(name="h_doc_rollback", timeout=(600, 1500), unblock=True),
     dict(name="h_bykey", twin="h_bykey__reach", timeout=(400, 900), parts=(16, 16)),
     dict(name="h_bykey_mixed", timeout=(200, 400)),
     dict(name="h_update", timeout=(200, 400)),
